@@ -1,1 +1,90 @@
-/-! STUB — property C15 is not built yet. -/
+import Martian.Lemmas.MessageView
+/-!
+C15 — Logging and snapshotting never change the message that is forwarded.
+Only property theorems and non-vacuity examples live here.
+Quantifiers: every message (any start line, header list, body bytes of any length, framing,
+trailers), every body-capture option, every logger and option combination.
+-/
+namespace Martian.Props.C15
+open Martian Martian.Go Martian.MessageView
+
+/-- The full clause "the snapshot is the wire form of the message" — FALSE of the code as it is
+(F15a), see `snapshot_is_wire_counterexample`. -/
+def SnapshotIsWire : Prop :=
+  ∀ (o : Opts) (m : Msg), captures o m = true → (snapshot o m).message = wire m
+
+/-- Messages without a trailer map: the snapshot is byte for byte the grammar serialisation
+(start line, Host, framing header, sorted fields, blank line, body — one chunk + last-chunk +
+blank line when chunked). What is missing for the full clause: messages with `Trailer ≠ nil`. -/
+theorem snapshot_is_wire_partial (o : Opts) (m : Msg) (hc : captures o m = true)
+    (ht : m.trailer = none) : (snapshot o m).message = wire m := by
+  unfold snapshot wire
+  simp only [hc, if_true, trailerSection, ht, framedBody]
+  cases hch : isChunked m.te <;> simp [fields, sortKV]
+
+/-- Exact form of the defect: with a non-nil trailer map on a chunked message the snapshot is the
+wire form minus its terminating CRLF. -/
+theorem snapshot_lacks_final_crlf (o : Opts) (m : Msg) (t : List KV) (hc : captures o m = true)
+    (ht : m.trailer = some t) (hch : isChunked m.te = true) :
+    wire m = (snapshot o m).message ++ crlf := by
+  unfold snapshot wire
+  simp [hc, trailerSection, ht, framedBody, hch]
+
+/-- Witness: `POST / HTTP/1.1`, `Transfer-Encoding: chunked`, body `abc`, trailer `X-T: v`. -/
+def witness : Msg :=
+  { isReq := true, method := strBytes "POST", url := strBytes "/", major := 1, minor := 1,
+    code := 0, status := [], host := strBytes "h", te := [chunkedTok], cl := -1, hdr := [],
+    body := some (strBytes "abc"), trailer := some [(strBytes "X-T", strBytes "v")] }
+
+theorem snapshot_is_wire_counterexample : ¬ SnapshotIsWire := by
+  intro h
+  have h1 := h noOpts witness (by decide)
+  have h2 := snapshot_lacks_final_crlf noOpts witness _ (by decide) rfl (by decide)
+  rw [h1] at h2
+  have := congrArg List.length h2
+  simp [crlf] at this
+
+/-- The three section readers partition the snapshot: header section = everything up to and
+including the blank line, body section = the framed body, trailer section = the rest; and
+`Reader()` is their concatenation = the whole snapshot. -/
+theorem reader_sections_partition (o : Opts) (m : Msg) :
+    reader (snapshot o m) = (snapshot o m).message ∧
+    headerReader (snapshot o m) = headSection m ∧
+    (captures o m = true →
+      bodyReader (snapshot o m) = framedBody m (m.body.getD []) ∧
+      trailerReader (snapshot o m) = trailerSection m) ∧
+    (captures o m = false →
+      bodyReader (snapshot o m) = [] ∧ trailerReader (snapshot o m) = []) := by
+  cases hc : captures o m <;>
+    simp [snapshot, hc, reader, headerReader, bodyReader, trailerReader, sectionOf]
+  apply List.take_of_length_le
+  omega
+
+/-- The `Decode` body reader of a snapshot gives back the message body for every framing
+(de-chunked when chunked), decompressed by the trusted gzip/flate when so announced. -/
+theorem decode_reader_returns_body (infl : Bytes → Bytes → Option Bytes) (o : Opts) (m : Msg) (b : Bytes)
+    (hc : captures o m = true) (hb : m.body = some b) :
+    decodeBody infl (snapshot o m) =
+      if compressOf m == gzipTok || compressOf m == deflateTok then infl (compressOf m) b else some b :=
+  decodeBody_snapshot infl o m b hc hb
+
+/-- Every logger, every option combination, skip flag set or not: the message handed on is the
+message received (same start line, headers, framing fields, body bytes, trailers). -/
+theorem logger_identity (l : Logger) (skip : Bool) (m : Msg) : (logMsg l skip m).1 = m := by
+  cases l <;> cases skip <;> simp [logMsg, snapshotMsg_id] <;> (repeat' split) <;> simp
+
+/-- An exchange marked skip-logging is recorded by none of the loggers. -/
+theorem skip_logging_records_nothing (l : Logger) (m : Msg) (hl : ∀ o, l ≠ .snapshot o) :
+    (logMsg l true m).2 = none := by
+  cases l <;> simp [logMsg] at *
+
+/-- …and one that is not marked is recorded by every one of them (the previous theorem is not
+vacuous). -/
+theorem unskipped_is_recorded (l : Logger) (m : Msg) : (logMsg l false m).2.isSome = true := by
+  cases l <;> simp [logMsg] <;> (repeat' split) <;> simp
+
+example : captures noOpts witness = true ∧ witness.trailer ≠ none ∧ isChunked witness.te = true := by decide
+example : ∃ o m, captures o m = true ∧ m.trailer = none ∧ isChunked m.te = true :=
+  ⟨noOpts, { witness with trailer := none }, by decide⟩
+
+end Martian.Props.C15
